@@ -28,6 +28,24 @@ pub fn check(sh: &Shared, c: &Case) -> Check {
         Ok(s) => s,
         Err(p) => fail!("format:panic", "lexical format_narsese panicked: {p}"),
     };
+    // every formatting entry point prints the same text
+    {
+        use narsese::api::FormatTo;
+        use narsese::lexical::Narsese as LN2;
+        let others = guard(|| match &lex {
+            LN2::Term(t) => vec![l.format_term(t), l.format(t), t.format_to(l)],
+            LN2::Sentence(x) => vec![l.format_sentence(x), l.format(x), x.format_to(l)],
+            LN2::Task(x) => vec![l.format_task(x), l.format(x), x.format_to(l)],
+        });
+        match others {
+            Err(p) => fail!("format:panic", "a lexical formatting entry point panicked: {p}"),
+            Ok(v) => {
+                if let Some(bad) = v.iter().find(|o| **o != s) {
+                    fail!("format:entry-points-differ", "format_narsese = {s:?}\nanother entry point (format_<kind> / format(&x) / x.format_to) = {bad:?}\nvalue {x:?}");
+                }
+            }
+        }
+    }
     if nontrivial {
         sh.nontrivial(fp(c));
         sh.sample(&format!("{}/{}", fmts::FMT_NAMES[fi], x.kind_name()), || json!({"format": fmts::FMT_NAMES[fi], "text": s}));
@@ -111,6 +129,10 @@ pub fn small_scope() -> Vec<Case> {
     out
 }
 
+pub fn very_deep() -> BoxedStrategy<Case> {
+    crate::props::c01::very_deep().prop_map(|(fi, nd)| (fi, lex_of_nd(fi, &nd, &[]))).boxed()
+}
+
 pub fn streams() -> Vec<Box<dyn AnyStream>> {
     vec![
         Box::new(Stream::<Case> {
@@ -118,6 +140,13 @@ pub fn streams() -> Vec<Box<dyn AnyStream>> {
             quick: 0,
             thorough: 0,
             source: Source::Enum(Box::new(|_| Box::new(small_scope().into_iter()))),
+            check: Box::new(check),
+        }),
+        Box::new(Stream::<Case> {
+            name: "very-deep",
+            quick: 100,
+            thorough: 3_000,
+            source: Source::Gen(Box::new(very_deep)),
             check: Box::new(check),
         }),
         Box::new(Stream::<Case> {
